@@ -421,6 +421,16 @@ pub fn exits(j: &mut Judge, w: &World, book: &Book, origin: &str) {
             (Some(x), Some(y), Some(z)) => (x, y, z),
             _ => continue,
         };
+        // no verdict on orders whose arithmetic left the decidable zone (DESIGN 3.2): either an
+        // earlier accepted request on them did, or price x remainder itself does
+        let zone_ok = match crate::num::parse(&b.price) {
+            crate::num::Parsed::Num(p) => p.mul_u128(rb).representable() && rb < crate::model::TWO96 && b.quote < crate::model::TWO96 && b.size < crate::model::TWO96,
+            _ => false,
+        };
+        if !zone_ok || j.tracker.bids.get(key).map(|t| t.tainted).unwrap_or(false) {
+            j.label("exit-skipped-outside-decidable-zone");
+            continue;
+        }
         let mut want = Flows::new();
         flow_add(&mut want, CONTRACT, &b.owner, &b.quote_denom, rq);
         flow_add(&mut want, CONTRACT, &b.owner, &b.quote_denom, rf);
